@@ -138,6 +138,28 @@ def closed_form_search(ctx, nmax):
                  'how': "list(%s(base_step=..., step_ratio=..., num_steps=..., step_nom=1.0, offset=..., check_num_steps=False, use_exact_steps=False)(1.0))" % cls.__name__})
             if found >= 3:
                 return
+    # zero steps are dropped: a step is yielded only if EVERY component is non-zero (array-valued base steps, explicit zeros and underflow)
+    from numdifftools.limits import CStepGenerator
+    for cls, kw in ((MinStepGenerator, {}), (MaxStepGenerator, {}), (CStepGenerator, {'path': 'radial'}), (CStepGenerator, {'path': 'spiral'})):
+        for base, num, ratio in ((np.array([0.25, 0.0, 1.0]), 4, 2.0), (np.array([1.0, 1e-320]), 20, 2.0), (np.array([0.5, 0.25]), 5, 2.0), (0.0, 3, 2.0), (-0.25, 3, 2.0)):
+            g = cls(base_step=base, step_ratio=ratio, num_steps=num, step_nom=1.0, use_exact_steps=False, **kw)
+            x = np.zeros(np.shape(base))
+            obs = [np.atleast_1d(t) for t in g(x)]
+            is_max = cls is MaxStepGenerator
+            rq = Fraction(ratio)
+            want = []
+            for i in (range(num) if is_max else range(num - 1, -1, -1)):
+                comps = [float(Fraction(float(b)) * rq ** ((-i) if is_max else i)) for b in np.atleast_1d(base)]      # correctly rounded: underflow to 0 included
+                if all(c != 0 for c in comps):
+                    want.append(comps)
+            ctx.count(1)
+            ok = len(obs) == len(want) and all(np.allclose(np.abs(o), np.abs(w), rtol=1e-3, atol=0) for o, w in zip(obs, want))     # (loose: subnormal components carry few bits; the subject here is which steps are dropped)
+            if not ok:
+                ctx.violation('zero-steps:%s' % cls.__name__, '%s(base_step=%r, step_ratio=%r, num_steps=%d, %r) yields %d steps (%d of them with a zero component); with zero steps dropped the sequence has %d steps' % (
+                    cls.__name__, np.asarray(base).tolist(), ratio, num, kw, len(obs), sum(1 for o in obs if np.any(o == 0)), len(want)),
+                    {'generator': cls.__name__, 'base_step': np.asarray(base).tolist(), 'step_ratio': ratio, 'num_steps': num, 'options': kw,
+                     'observed': [np.abs(o).tolist() for o in obs], 'expected_magnitudes': want})
+                return
     # default count against the independent closed form: max((n + order - 1) // divisor, 1) + num_extrap with divisor 2 for central and
     # multicomplex (their rules advance by two orders per term), 4 for complex once n > 1 or order >= 4 (else 2), 1 for the one-sided methods
     for method, n, order in itertools.product(['central', 'central2', 'forward', 'backward', 'complex', 'multicomplex'], range(1, 11), range(1, 11)):
